@@ -8,6 +8,7 @@ import (
 	"os/exec"
 	"path/filepath"
 	"sort"
+	"strings"
 )
 
 // Pristine-process reference. The in-process reference model (a brand new instance per
@@ -155,7 +156,19 @@ func pristineSample(p *histParams, st *Stats, lastRun int, maxCfg, perCfg int) {
 			g.docs[i], g.docs[j] = g.docs[j], g.docs[i]
 		}
 		if len(g.docs) > perCfg {
-			g.docs = g.docs[:perCfg]
+			// half of the places go to documents with characters outside the Basic Multilingual
+			// Plane, if there are any: state at package level that confuses rare characters with
+			// common ones (tables indexed by a truncated code point) only shows on those, and only
+			// against a process that has not seen the common ones
+			sel, rest := []string{}, []string{}
+			for _, d := range g.docs {
+				if len(sel) < perCfg/2 && strings.IndexByte(d, 0xf0) >= 0 {
+					sel = append(sel, d)
+				} else {
+					rest = append(rest, d)
+				}
+			}
+			g.docs = append(sel, rest...)[:perCfg]
 		}
 		docs := make([][]byte, len(g.docs))
 		for i, d := range g.docs {
